@@ -201,9 +201,20 @@ static int live_equality(void) {
   } catch (...) { printf("live equality: exception in a feasible system\n"); bad++; }
   return bad;
 }
+// a constraint whose two ends are one variable, x + 3 <= x: false at every position, so it must come back flagged (or the solver must throw)
+static int same_variable(void) {
+  Variables vs; Constraints cs; vs.push_back(new Variable(0, 5.0)); vs.push_back(new Variable(1, 7.0));
+  cs.push_back(new Constraint(vs[0], vs[1], 1.0)); Constraint *self = new Constraint(vs[0], vs[0], 3.0); cs.push_back(self);
+  int bad = 0;
+  try { IncSolver solver(vs, cs); solver.solve();
+    if (!self->unsatisfiable) { printf("x + 3 <= x: returned unflagged (x=%g)\n", vs[0]->finalPosition); bad++; }
+  } catch (...) { }
+  return bad;
+}
 int main() {
   int bad = 0;
   bad += live_equality();
+  bad += same_variable();
   bad += parallel(1, 3, 0, 0); bad += parallel(1, 3, 5, 0); bad += parallel(2, 7, 0, 1); bad += parallel(0, 1, 3, 3);
   bad += run("one chain of 20", 1, 20, 4);
   bad += run("one group of 100", 1, 100, 10);
@@ -300,6 +311,12 @@ def _jobs(tier, fl):
                   slices=[S["slack"]], timeout=600,
                   domain="scaled-integer mode (double retyped long long, overflow-checked): gap and positions integers with |v| <= 2^20, scales in [1,4]; "
                          "IEEE floating-point equality of two sub/mul chains is out of reach of every installed back end (DESIGN 3)",
+                  expect=[r'w_slack\.postcondition', r'precondition', r'assertion']))
+    # the same contract when both ends are ONE variable (x + g <= x): separately fresh ends exclude that shape
+    js.append(Job("slack_exact_same_variable", "D", spec, "h_slack", cxx="#define double long long\n#define VERIF_INT_MODE\n" + slack_cxx,
+                  enforce="w_slack", replace=["w_position", "w_unscaledPosition"], defines=["JOB_slack", "INT_MODE", "SLACK_SAME_VARIABLE"],
+                  slices=[S["slack"]], timeout=600, replay=replay_flag,
+                  domain="as slack_exact, with left and right the same variable",
                   expect=[r'w_slack\.postcondition', r'precondition', r'assertion']))
     # ---- scan tails
     shim_filled = fill(pre, SHIM_POSITION, SHIM_UPOSITION, SHIM_SLACK,
@@ -504,7 +521,7 @@ TRUSTED = [
     "(finalPosition == position()) => every unflagged constraint has right.scale*right.final - gap - left.scale*left.final >= -1e-10 on normal return",
     "the paper step from 'copyResult loop body for one arbitrary element' + 'whole loop for n <= 4' to all n (DESIGN 2.9)",
     "validity/distinctness of constraint-array elements other than the ghost one (scan jobs run with --no-pointer-check; reads through other elements yield arbitrary values)",
-    "slack_exact: machine arithmetic treated as mathematical (double retyped long long, overflow-checked)",
+    "slack_exact / slack_exact_same_variable (left and right one variable): machine arithmetic treated as mathematical (double retyped long long, overflow-checked)",
 ]
 ASSUMPTIONS = [
     "caller duty of IncSolver::addConstraint: the constraint is also appended to the vector the solver's cs reference aliases (both call sites in libcola/colafd.cpp push first)",
